@@ -189,6 +189,8 @@ def _wsgi_request(app, path, inm, ims, method="GET"):
         environ["HTTP_IF_NONE_MATCH"] = inm
     if ims is not None:
         environ["HTTP_IF_MODIFIED_SINCE"] = ims
+    if _RANGE[0] and (inm is not None or ims is not None):
+        environ["HTTP_RANGE"] = "bytes=0-"
     got = {}
 
     def start_response(status, headers, exc_info=None):
@@ -205,6 +207,8 @@ async def _asgi_request(app, path, inm, ims, method="GET"):
         headers.append((b"if-none-match", inm.encode("latin-1")))
     if ims is not None:
         headers.append((b"if-modified-since", ims.encode("latin-1")))
+    if _RANGE[0] and (inm is not None or ims is not None):
+        headers.append((b"range", b"bytes=0-"))
     scope = {"type": "http", "asgi": {"version": "3.0"}, "http_version": "1.1", "method": method, "scheme": "http",
              "path": path, "raw_path": path.encode(), "query_string": b"", "root_path": "", "headers": headers,
              "server": ("testserver", 80), "client": ("127.0.0.1", 1234)}
@@ -261,6 +265,7 @@ def _opaque(etag_header):
 
 
 _HEAD = [False]
+_RANGE = [False]
 
 
 async def _run_hist(line):
@@ -268,7 +273,10 @@ async def _run_hist(line):
     # `!H`: the conditional requests of the history are HEAD requests (validators work for HEAD as for GET; a 200
     # answer to HEAD has no body - it stands for the file as it is now)
     _HEAD[0] = app_name.endswith("!H")
-    if _HEAD[0]:
+    # `!R`: the conditional requests also carry `Range: bytes=0-` (a download manager resuming with its validators): the
+    # conditions are evaluated first - an unchanged file is a 304 -, and a 206 of the whole file stands for the 200
+    _RANGE[0] = app_name.endswith("!R")
+    if _HEAD[0] or _RANGE[0]:
         app_name = app_name[:-2]
     app_name, _, tz = app_name.partition("@")
     if tz:
@@ -339,6 +347,8 @@ async def _run_hist_tz(line, iface, app_name, tps, size, mtime, ctime, ops):
                 raw.append((None, None))
                 out.append(exc_name(exc).replace(" ", "="))
                 continue
+            if _RANGE[0] and status == 206 and any(k == "content-range" and v.startswith("bytes 0-") for k, v in hdrs):
+                status = 200      # the whole file, as a range
             et = [v for k, v in hdrs if k == "etag"]
             lm = [v for k, v in hdrs if k == "last-modified"]
             if status == 200:
@@ -929,6 +939,7 @@ def cases(rng, tier):
         ops = concretise(abstract, tps, step, BASE)
         for iface in ("wsgi", "asgi"):
             yield hist(iface, ("files", "pages")[idx % 2] + "!H", tps, 20, BASE * tps, BASE * tps, ops)
+            yield hist(iface, ("files", "pages")[(idx + 1) % 2] + "!R", tps, 20, BASE * tps, BASE * tps, ops)
     # ... and under process time zones west and east of UTC (with and without DST)
     for idx, abstract in enumerate(exhaustive(3, core, False, allmods)):
         tps, step = TICKS[idx % 3]
